@@ -58,6 +58,8 @@ def instances(tier):
         # interleavings inside one instant: the script step is applied j loop turns after a connection was handed to the
         # client (connect completing, subscribers being notified, held messages being flushed, read task starting)
         out.append({"kind": "script", "gen": g, "depth": 2 if tier == "quick" else 3, "alphabet": "turns", "turns": 10})
+        # a long outage: many refusals in a row; the time to recover once the console accepts again does not grow with them
+        out.append({"kind": "outage", "gen": g, "refusals": 30 if tier == "quick" else 120})
     return out
 
 
@@ -74,7 +76,55 @@ def _unencodable(g):
     return C(zc.ZoneControlMessage([zc.ZoneControlData(300, zc.ZonePowerControl.TURN_ON, None)]))
 
 
+def _outage(ctx, p):
+    g = Gen(p["gen"])
+    S = socket_mod()
+    cat = catalog.catalog(g)
+    status_entry, cmd_entry = cat[4], cat[3]
+    probe_frame = framing.frame(g.n, 0xB0, 0x80, 8, status_entry[2], status_entry[3](2))
+    n_ref = p["refusals"]
+    t_back = ctx.real("t_back", 1, 3) + 2.0 * n_ref          # the instant from which the console accepts again (free within a window)
+    with Rig(ctx, g, stub_reader=False) as rig:
+        refused = {"n": 0}
+
+        def on_connect(net, n):
+            if _b(rig.loop.time() < t_back):
+                refused["n"] += 1
+                return ("refuse",)
+            return ("accept", 0)
+
+        rig.net.on_connect = on_connect
+        rig.spawn(rig.sock.open_socket())
+        rig.loop.vt_run(t_back + 40.0)
+        detail = {"refusals": refused["n"]}
+        ctx.observe("refusals", refused["n"])
+        c = rig.net.current()
+        ctx.check(refused["n"] >= n_ref and rig.sock.is_connected and c is not None, "heals.connected", detail=detail)
+        if c is not None:
+            c.send(bytes(probe_frame))
+
+        async def user_send():
+            try:
+                await rig.sock.send(cmd_entry[1](6), S.RetryPolicy(0, 10.0))
+            except (S.QueueOverflowError, S.NotOpenError):
+                pass
+
+        rig.spawn(user_send())
+        rig.loop.vt_run(t_back + 45.0)
+        ctx.check(len(rig.received) == 1, "heals.receiving", detail=detail)
+        ctx.check(sum(len(x.writes) for x in rig.net.conns) > 0, "heals.transmitting", detail=detail)
+        ctx.check(rig.net.max_open <= 1 and not rig.task_failures(), "single_connection", detail=detail)
+    for lab in ("abandoned_closed", "no_task_crash"):
+        ctx.reach(lab)
+
+
+def _b(x):
+    return bool(x) if isinstance(x, SymBool) else x
+
+
 def run(ctx, p):
+    if p["kind"] == "outage":
+        return _outage(ctx, p)
     g = Gen(p["gen"])
     S = socket_mod()
     cat = catalog.catalog(g)
